@@ -75,11 +75,11 @@ def rand_closed(rng, n):
             return succ
 
 
-def rand_template(rng, n):
+def rand_template(rng, n, fallback=True):
     """Random closed CFG biased towards shapes that are rare by chance: several entries / exits /
     latches per SCC, irreducible cores, exits landing inside sibling arms, nested loops, self
     loops."""
-    for _ in range(200):
+    for _ in range(200 if fallback else 10 ** 6):
         succ = [list() for _ in range(n)]
         order = list(range(1, n))
         # a spine so that everything is reachable and reaches the last node
@@ -139,10 +139,28 @@ def corpus_graphs():
     return [tuple(tuple(x) for x in e["succ"]) for e in json.load(open(p)) if closed(e["succ"])]
 
 
+def many_exit_loop(m, shared_exit=False):
+    """entry -> a loop of m blocks, each with its own way out (m exits: value tables with m rows)"""
+    succ = [(1,)]
+    for i in range(1, m + 1):
+        succ.append(((i + 1) if i < m else 1, m + i))
+    for _ in range(m):
+        succ.append((2 * m + 1,) if shared_exit else ())
+    if shared_exit:
+        succ.append(())
+    return tuple(succ)
+
+
+def wide_graphs():
+    """shapes with wide value tables (9-14 rows), beyond what the random generators reach"""
+    return [many_exit_loop(m, sh) for m in (9, 10, 11, 12, 13, 14) for sh in (False, True)]
+
+
 def graph_inputs(tier, seed):
     """The closed-CFG inputs of one run: list of (generator tag, succ)."""
     rng = random.Random(seed * 1000003 + 17)
     out = [("G0-corpus", s) for s in corpus_graphs()]
+    out += [("G0-wide-tables", s) for s in wide_graphs() if closed(s)]
     for n in (1, 2, 3, 4):
         out += [("G1-exhaustive-n%d" % n, s) for s in all_closed(n)]
     if tier == "quick":
